@@ -110,6 +110,16 @@ def run(pid=None, parallel=4):
 
 
 def main(argv):
+    if argv and argv[0] == '--only':
+        # tools/selftest.sh --only seed-C08a,seed-C08b   (experiments; RESULTS files are not rewritten)
+        from concurrent.futures import ThreadPoolExecutor
+        names = set(argv[1].split(','))
+        es = [e for e in corpus() if e['name'] in names]
+        with ThreadPoolExecutor(max_workers=4) as ex:
+            rs = list(ex.map(lambda e: run_entry(e, max(2, 16 // max(1, min(4, len(es))))), es))
+        for r in rs:
+            print('%-20s %-9s %s' % (r['name'], r['status'], ', '.join(r.get('failed_obligations', [])[:4])))
+        return 0
     pid = argv[0] if argv else None
     rs = run(pid)
     ok = True
